@@ -461,6 +461,28 @@ class Program:
                     find_dtors(c, depth + 1)
         for o in objs:
             find_dtors(o)
+        # helper classes of the library at namespace level (detail::scope_exit<F> ...): their instantiated specialisations, by name
+        self.helper_specs = {}
+
+        def find_helpers(n, depth=0):
+            if not isinstance(n, dict) or depth > 6:
+                return
+            for c in n.get('inner', []) or []:
+                if not isinstance(c, dict):
+                    continue
+                k = c.get('kind')
+                if k == 'NamespaceDecl':
+                    find_helpers(c, depth + 1)
+                elif k == 'ClassTemplateDecl' and c.get('name') in self.dtor_classes and c.get('name') not in CONTAINERS:
+                    for sp in c.get('inner', []) or []:
+                        if isinstance(sp, dict) and sp.get('kind') == 'ClassTemplateSpecializationDecl' and \
+                                any(isinstance(x, dict) and x.get('kind') == 'FieldDecl' for x in sp.get('inner', [])):
+                            self.helper_specs.setdefault(c['name'], []).append(Record(sp))
+                elif k == 'CXXRecordDecl' and c.get('name') in self.dtor_classes and c.get('completeDefinition'):
+                    self.helper_specs.setdefault(c['name'], []).append(Record(c))
+        for o in objs:
+            if isinstance(o, dict) and o.get('kind') == 'NamespaceDecl':
+                find_helpers(o)
 
         def collect(ns):
             for c in ns.get('inner', []) or []:
